@@ -3253,6 +3253,92 @@ theorem eulerStep_density_budget (c : Cfg α) (s : St α) (tf dtminS dtmaxS : α
       (nucIndex_lt _ _ _ hinv.1)
 
 
+/-! ### the same budget for any stage and for the Runge-Kutta step -/
+
+/-- **the budget of one `_updateX` of any stage, for every phase**: from any stage state `sF` (same grids as `s`) and any
+non-negative stage vector `x`, the total handed on is at most the total of the processed old state plus the stage's nucleation
+rate times the stage's step -/
+theorem stageX_budget (c : Cfg α) (s sF : St α) (x : List (List α)) (y : Slice α) (dt : α) (hs : StReady c s)
+    (hst : StageOK s sF x) (hy : y.ph.length = s.ph.length) (hdt : 0 < dt) (hx : ∀ xi ∈ x, ∀ v ∈ xi, 0 ≤ v)
+    (i : Nat) (ps : PhaseSt α) (hi : s.ph[i]? = some ps) :
+    ∃ xN xE yp, (stageX c s sF x y dt)[i]? = some xN ∧ (entryX c s)[i]? = some xE ∧ y.ph[i]? = some yp ∧
+      xN.sum ≤ xE.sum + yp.nucRate * dt := by
+  obtain ⟨hc, hcur, hq⟩ := hs
+  obtain ⟨hl, hh, hgr, hxl, hxi⟩ := hst
+  have hgood : GridGood ps.grid := (hq ps (List.mem_of_getElem? hi)).1
+  have hinv := C08.inv_spec ps.grid hgood.1
+  have hil : i < s.ph.length := (List.getElem?_eq_some_iff.mp hi).1
+  have hF : sF.ph[i]? = some sF.ph[i] := List.getElem?_eq_getElem (by rw [hl]; exact hil)
+  have hX : x[i]? = some x[i] := List.getElem?_eq_getElem (by rw [hxl]; exact hil)
+  have hY : y.ph[i]? = some y.ph[i] := List.getElem?_eq_getElem (by rw [hy]; exact hil)
+  have hE := entryX_getElem c s i ps hi
+  obtain ⟨ps', hps', hgrid⟩ := hgr i _ hF
+  have : ps' = ps := by rw [hi] at hps'; exact (Option.some.inj hps').symm
+  subst this
+  set xE := PSD.processX ps'.rdfIdx c.minRadius ps'.grid.psd ps'.grid.size with hxE
+  have hxElen : xE.length = ps'.grid.bins := by
+    rw [hxE, processX_len, hinv.2.1, hinv.2.2.2.1]; simp
+  refine ⟨advanceStage sF.ph[i] x[i] ps'.grid.psd xE y.ph[i] dt, xE, y.ph[i], ?_, hE, hY, ?_⟩
+  · simp only [stageX, List.getElem?_map, zip3_getElem?, hi, hE, hY, hF, hX, Option.map_some]
+  · exact advanceStage_sum_le sF.ph[i] x[i] ps'.grid.psd xE _ dt (by rw [hgrid]; exact hgood) hdt
+      (hx _ (List.mem_of_getElem? hX)) hinv.2.2.2.2.2.2.2.2 (by rw [hgrid]; exact hxElen)
+      (by unfold nucIdxOf; rw [hgrid]; exact nucIndex_lt _ _ _ hinv.1)
+
+/-- the processed stage-3 vector of a Runge-Kutta step: what the fourth `getdXdt` is evaluated on and whose fluxes the accepted
+state is built from -/
+def rk4X3 (c : Cfg α) (s : St α) (dt : α) (a2 a3 : EvalAns α) : List (List α) :=
+  let cur := s.cur c.nElem
+  let t := cur.time
+  let xk1P := processAll c s (stageX c s s (entryX c s) cur (dt / 2))
+  let e2 := depEval c s (t + dt / 2) xk1P a2 cur
+  let xk2P := processAll c e2.1 (stageX c s e2.1 xk1P e2.2 (dt / 2))
+  let e3 := depEval c e2.1 (t + dt / 2) xk2P a3 e2.2
+  processAll c e3.1 (stageX c s e3.1 xk2P e3.2 dt)
+
+omit [IsStrictOrderedRing α] in
+theorem rk4Evals_xNew (c : Cfg α) (s : St α) (dt : α) (a2 a3 a4 : EvalAns α) :
+    (rk4Evals c s dt a2 a3 a4).xNew =
+      stageX c s (rk4Evals c s dt a2 a3 a4).s4.1 (rk4X3 c s dt a2 a3) (rk4Evals c s dt a2 a3 a4).s4.2 dt := rfl
+
+/-- **C02's budget clause for an accepted Runge-Kutta step — partial**: the same bound as for the Euler step, with the
+nucleation rate of the FOURTH evaluation (the one whose terms `_updateX` uses), under the hypothesis that the processed stage-3
+vector is non-negative.  What is missing for the full statement: the intermediate Runge-Kutta vectors are `X0 + limited flux of
+stage k × step` with the limiter referring to the STORED distribution, not to the vector the fluxes were computed from, so their
+non-negativity is not a consequence of the limiter (it is for the Euler step, `advanceStage_nonneg`).  The check run does not record
+the intermediate vectors, so the hypothesis is not evaluated there; the accepted state of every Runge-Kutta step is compared with
+the model's by the refinement run. -/
+theorem rk4Step_density_budget_partial (c : Cfg α) (s : St α) (tf dtminS dtmaxS : α) (a2 a3 a4 aPost : EvalAns α)
+    (upd : List (UpdAns α)) (o : StepOut α) (h : rk4Step c s tf dtminS dtmaxS a2 a3 a4 aPost upd = some o)
+    (hs : StReady c s) (h2 : AnsShaped c s.ph.length a2) (h3 : AnsShaped c s.ph.length a3)
+    (h4 : AnsShaped c s.ph.length a4) (hdt : 0 < o.dt)
+    (hx3 : ∀ xi ∈ rk4X3 c s o.dt a2 a3, ∀ v ∈ xi, 0 ≤ v)
+    (i : Nat) (ps : PhaseSt α) (hi : s.ph[i]? = some ps) :
+    ∃ xN xE yp, o.xNew[i]? = some xN ∧ (entryX c s)[i]? = some xE ∧
+      (rk4Evals c s o.dt a2 a3 a4).s4.2.ph[i]? = some yp ∧ xN.sum ≤ xE.sum + yp.nucRate * o.dt := by
+  have hc := hs.1
+  have hcur := hs.2.1
+  have hg : AllGood s.ph := fun ps hps => (hs.2.2 ps hps).1
+  have ho : o.xNew = (rk4Evals c s (acceptedDt c s tf dtminS dtmaxS) a2 a3 a4).xNew ∧
+      o.dt = acceptedDt c s tf dtminS dtmaxS := by
+    unfold rk4Step at h
+    simp only at h
+    split at h
+    · simp at h
+    · simp only [Option.some.injEq] at h; subst h; exact ⟨rfl, rfl⟩
+  rw [ho.1, ← ho.2, rk4Evals_xNew]
+  set dt := o.dt with hdtdef
+  set cur := s.cur c.nElem with hcu
+  have k1 := stageOK_process c s s _ hg (stageOK_stageX c s s (entryX c s) cur (dt / 2) hg hcur (stageOK_entry c s hg))
+  obtain ⟨e2ok, e2y⟩ := stageOK_eval c s s _ (cur.time + dt / 2) a2 cur hc h2 k1
+  have k2 := stageOK_process c s _ _ hg (stageOK_stageX c s _ _ _ (dt / 2) hg e2y e2ok)
+  obtain ⟨e3ok, e3y⟩ := stageOK_eval c s _ _ (cur.time + dt / 2) a3 _ hc h3 k2
+  have k3 := stageOK_process c s _ _ hg (stageOK_stageX c s _ _ _ dt hg e3y e3ok)
+  obtain ⟨e4ok, e4y⟩ := stageOK_eval c s _ _ (cur.time + dt) a4 _ hc h4 k3
+  have e4ok' : StageOK s (rk4Evals c s dt a2 a3 a4).s4.1 (rk4X3 c s dt a2 a3) := e4ok
+  have e4y' : (rk4Evals c s dt a2 a3 a4).s4.2.ph.length = s.ph.length := e4y
+  exact stageX_budget c s _ _ _ dt hs e4ok' e4y' hdt hx3 i ps hi
+
+
 /-! ### non-vacuity
 
 `GridGood` is satisfiable (the grid a `PopulationBalanceModel` is constructed with).  The hypothesis `… = some o` of the step
